@@ -2,6 +2,7 @@ import Walrus.Proofs.GcEmit
 import Walrus.Proofs.GcCode
 import Walrus.Proofs.GcCodeEmit
 import Walrus.Proofs.BodiesOK
+import Walrus.Proofs.PlainEmit
 
 /-!
 # C02 (continued) — after the GC pass every section finds the indices it needs
@@ -129,7 +130,7 @@ example : ∃ g, mkGcInfo sample = some g ∧ sample.code.length = sample.funcs.
     obtain rfl := Option.some.inj hf
     obtain rfl := Option.some.inj hpf
     exact ⟨sampleBody0, 0, _, _, _, by simp [sampleBody0, PL.WF, PI.WF, isStructural],
-      by simp [sampleBody0, PL.Clean, PI.Clean, opClean], rfl, rfl⟩
+      by simp [sampleBody0, PL.Clean, PI.Clean, opClean, entSpaces], rfl, rfl⟩
   | 1 =>
     simp only [codeOf, sample] at hf
     obtain rfl := Option.some.inj hf
@@ -149,6 +150,21 @@ theorem after_gc_the_whole_module_emits_checked (m : ModuleM) (g : GcInfo) (hg :
 
 example : (mkGcInfo sample).map (fun g => (gcWF g, bodiesOK sample g, sectionsOK sample)) = some (true, true, true) := by
   decide
+
+/-- **emitting immediately after parsing**: if the model's parse of the code-related sections
+    succeeds and the hypotheses in decidable form hold (bodies well-nested and clean — `bodiesOKc` —,
+    constant expressions well-shaped, function references in range: what decoding and validation
+    guarantee; the driver evaluates them on every `module` request), the model's `parse → emit`
+    answers with a module: no lookup of an index, a branch target or a local fails anywhere -/
+theorem parse_then_emit_answers_checked (m : ModuleM) (pfs : List ParsedFunc)
+    (hlen : m.code.length = m.funcs.length) (hp : parseCode (codeOf m) = some pfs)
+    (hb : bodiesOKc m pfs = true) (hs : sectionsOK m = true) (hr : funcRefsOK m = true) :
+    (roundTripModule m).isSome = true :=
+  plain_module_emits m pfs hlen hp (bodiesOKc_sound m pfs hb) hs hr
+
+example : (parseCode (codeOf sample)).map (fun pfs => (bodiesOKc sample pfs, sectionsOK sample, funcRefsOK sample)) =
+    some (true, true, true) := by decide
+example : (roundTripModule sample).isSome = true := by decide
 
 end C02
 end Walrus
